@@ -1,11 +1,20 @@
 #!/bin/bash
-# refresh_sweep.sh <newest sweep log> [older logs...] (for a seed in several logs the first log given wins): writes seeded/SWEEP.txt (one line per seed: reported by its own
-# property's check or not, with the number of VIOLATION lines) from the output of tools/sweep.sh.
+# refresh_sweep.sh <newest sweep log> [older logs...] (for a seed in several logs the first log given wins): writes
+# seeded/SWEEP.txt (one line per seed: reported by its own property's check or not, with the number of VIOLATION
+# lines; retired seeds are marked) from the output of tools/sweep.sh.
 cd "$(dirname "$0")/.."
+lines=$(cat "$@" | grep "^\[" | sed -E 's#replay=[^ ]*/work/#replay=work/#' | sort -s -u -k1,1)
+# a seed retired since an older log was written counts as retired
+out=""
+while IFS= read -r l; do
+  s=$(echo "$l" | sed -E 's/^\[([^]]*)\].*/\1/')
+  if grep -q '"retired"' seeded/$s/meta.json 2>/dev/null; then l="[$s] retired (skipped)"; fi
+  out+="$l"$'\n'
+done <<< "$lines"
 {
   echo "# every seeded change against its own property's quick check (tools/sweep.sh), from: $*"
-  echo "# commit of /verif at the time of the run: $(git log --format=%h -1)   /repo: $(git -C /repo log --format=%h -1)"
-  cat "$@" | grep "^\[" | sed -E 's#replay=[^ ]*/work/#replay=work/#' | sort -s -u -k1,1
-  echo "# reported: $(cat "$@" | grep -c 'rc=1')   not reported: $(cat "$@" | grep -c 'rc=0')   retired: $(cat "$@" | grep -c 'retired')"
+  echo "# commit of /verif when this file was written: $(git log --format=%h -1)   /repo: $(git -C /repo log --format=%h -1)"
+  printf "%s" "$out"
+  echo "# reported: $(printf "%s" "$out" | grep -c 'rc=1')   not reported: $(printf "%s" "$out" | grep -c 'rc=0')   retired: $(printf "%s" "$out" | grep -c 'retired')   seeds stored: $(ls seeded | grep -c '^C')"
 } > seeded/SWEEP.txt
 tail -1 seeded/SWEEP.txt
